@@ -148,3 +148,23 @@ class C16(Check):
                "Go harness cmd_createue.go; strconv.Atoi and fmt %0*d modelled for unsigned digit strings of <= 18 characters"]
     assumptions = ["IMSI strings of at most 18 digits (no int64 overflow in Atoi/addition)",
                    "distinctness of SUPIs is proved for all indices; staying inside the PLMN needs MSIN + index < 10^|MSIN| (the property's own capacity bound)"]
+
+    # ---- process level: the population the real main() creates from a configuration FILE (GetConfiguration -> CreateUE ->
+    # RegisterUE): every UE registers under initial IMSI + index, inside the configured PLMN (the reference AMF knows exactly
+    # these subscribers and checks the SUCI of every registration)
+    def extra(self, harness, build_ok):
+        import os, sys
+        from .. import proc
+        sys.path.insert(0, os.path.join(C.VERIF, "refamf"))
+        binary, err = C.build_emulator()
+        if binary is None:
+            raise RuntimeError("emulator build failed: " + err[-1500:])
+        cfgs = []
+        plmns = [("310", "410"), ("208", "93"), ("001", "001")] + ([("999", "99"), ("722", "070"), ("234", "15")] if self.tier != "quick" else [])
+        for i, (mcc, mnc) in enumerate(plmns):
+            r = self.rng.fork("pop%d" % i)
+            c = proc.default_cfg(r, counts=[3, 0, 0, 0, 0])
+            msin = c["imsi"][len(c["mcc"]) + len(c["mnc"]):][:15 - len(mcc) - len(mnc)]
+            c.update(mcc=mcc, mnc=mnc, imsi=mcc + mnc + msin)
+            cfgs.append(c)
+        proc.registration_runs(self, binary, cfgs, "the population created from the configuration file")
